@@ -292,5 +292,8 @@ Fixpoint replays_ok (steps : list step) (i : Z) : bool :=
   | Fresh _ :: r => replays_ok r (i + 1)
   | Replay j :: r => (0 <=? j) && (j <? i) && replays_ok r (i + 1)
   end.
+(* a thumbprint is only ever loaded for an X.509 user token (ServerUserToken::read_thumbprint) *)
+Definition thumb_only_x509 (u : user) : bool := match u_thumb u with Some _ => u_x509 u | None => true end.
 Definition valid (c : case) : bool :=
-  distinct_ids (c_users c) && forallb (fun u => 0 <? u_id u) (c_users c) && replays_ok (c_steps c) 0.
+  distinct_ids (c_users c) && forallb (fun u => 0 <? u_id u) (c_users c) &&
+  forallb thumb_only_x509 (c_users c) && replays_ok (c_steps c) 0.
